@@ -116,7 +116,7 @@ Section ExtLag.
       else (xext_or s zero, s_v_ext s) in
     if i_running i && Z.eqb (i_step i) (s_prev_ts s) then
       let jump2 := cv_dist2 c (i_x i) (s_x_old s) / (c_width c * c_width c) in
-      if nltb O quarter jump2 then (clamp_init c (i_x i), ve) else (s_prev_x s, s_prev_v s)
+      if nltb O quarter jump2 then (clamp_init c (i_x i), zero) else (s_prev_x s, s_prev_v s)
     else (xe, ve).
 
   (* the guard at the top of colvar::update_extended_Lagrangian *)
@@ -160,23 +160,62 @@ Section ExtLag.
     let '(x3, v4, err) := reflect c ve x2 v3 in
     (cv_wrap c x3, v4, ekin, err).
 
+  (* spring force on the extended coordinate: (-0.5 k) dist2_lgrad(x_ext, x) *)
+  Definition spring (c : config) (p : params) (xe x : T) : T := (nneg O half * p_k p) * cv_lgrad c xe x.
+
+  (* ft_reported after calc_colvar_properties: engines with same-step total forces get the system (spring) force of
+     the current step [fix-C17-2]; otherwise it is left to update_extended_Lagrangian *)
+  Definition ft_props (c : config) (p : params) (s : state) (xe x : T) : T :=
+    if c_same_step c then spring c p xe x else s_ft_rep s.
+
   Definition step (c : config) (p : params) (s : state) (i : input) : state :=
     let '(xe, ve) := props_xv c s i in
     (* x_reported = x_ext; v_reported = v_ext; after_restart = false; then update_forces_energy: f = fb *)
     if negb (i_running i) then
       mkState (Some xe) ve (s_prev_x s) (s_prev_v s) (i_step i) (i_x i) false
-              (s_ekin s) (s_epot s) (s_ft_rep s) zero (i_fb i + i_fba i) xe ve false
+              (s_ekin s) (s_epot s) (ft_props c p s xe (i_x i)) zero (i_fb i + i_fba i) xe ve false
     else if tsf_error c s i then
       mkState (Some xe) ve (s_prev_x s) (s_prev_v s) (i_step i) (i_x i) false
-              (s_ekin s) (s_epot s) (s_ft_rep s) zero (i_fb i + i_fba i) xe ve true
+              (s_ekin s) (s_epot s) (ft_props c p s xe (i_x i)) zero (i_fb i + i_fba i) xe ve true
     else
       let '(fr, f_system, f_ext) := ext_forces c p xe i in
       let f_atoms := nneg O one * f_system * tsf_real c in
-      let ft := if c_same_step c then s_ft_rep s else if c_subtract c then f_system else f_ext in
+      let ft := if c_same_step c then ft_props c p s xe (i_x i) else if c_subtract c then f_system else f_ext in
       let epot := half * p_k p * cv_dist2 c xe (i_x i) in
       let '(xn, vn, ekin, err) := integrate c p xe ve f_ext (i_rnd i) in
       mkState (Some xn) vn xe ve (i_step i) (i_x i) false
               ekin epot ft fr (f_atoms + i_fba i) xe ve err.
+
+  (* a module step on which the variable sleeps (timeStepFactor > 1, absolute step not a multiple of it):
+     colvar::update_forces_energy resets f and fr and returns zero energy; nothing else of the object is touched
+     (no calc, no end_of_step) *)
+  Definition sleep (s : state) : state :=
+    mkState (s_x_ext s) (s_v_ext s) (s_prev_x s) (s_prev_v s) (s_prev_ts s) (s_x_old s) (s_after_restart s)
+            (s_ekin s) (s_epot s) (s_ft_rep s) zero zero (s_x_rep s) (s_v_rep s) false.
+
+  (* colvarmodule::calc_colvars: the variable is awake iff the absolute step is a multiple of its factor;
+     it0 = absolute step of relative step 0 (it_restart) *)
+  Definition awake_at (c : config) (it0 : Z) (i : input) : bool := Z.eqb (Z.modulo (it0 + i_step i) (c_tsf c)) 0.
+
+  (* one module step, awake or not; the input of a sleeping step is ignored (the variable is not computed) *)
+  Definition mstep (c : config) (p : params) (it0 : Z) (s : state) (i : input) : state :=
+    if awake_at c it0 i then step c p s i else sleep s.
+
+  (* energy that the variable contributes to the engine's energy at this module step *)
+  Definition menergy (c : config) (it0 : Z) (i : input) (s' : state) : T :=
+    if awake_at c it0 i then s_epot s' + s_ekin s' else zero.
+
+  Fixpoint mtrace (c : config) (p : params) (it0 : Z) (s : state) (l : list input) : list state :=
+    match l with
+    | [] => []
+    | i :: r => let s' := mstep c p it0 s i in s' :: mtrace c p it0 s' r
+    end.
+
+  (* colvar::get_state_params: (extended_x, extended_v) written when the state is saved at relative step t:
+     the values reported at the beginning of the step if the variable was updated at this step (or never),
+     the integrated ones otherwise [fix-C17-2] *)
+  Definition saved_xv (s : state) (t : Z) : T * T :=
+    if Z.ltb (s_prev_ts s) 0 || Z.eqb (s_prev_ts s) t then (s_x_rep s, s_v_rep s) else (xext_or s zero, s_v_ext s).
 
   Definition run (c : config) (p : params) (s : state) (l : list input) : state :=
     fold_left (step c p) l s.
